@@ -387,6 +387,8 @@ def run(F, rep, tier):
     rule_r5(F, rep)
     from . import c05_flow
     c05_flow.run(F, rep)
+    from . import c06
+    c06.rule_r3(F, rep)      # numbers reach the document only through Display of the f64 itself
     rep.assume("round-trip equality of emitted documents is value-level and not decided; number text is "
                "delegated to <f64 as Display> (std, trusted)")
     return EXPLANATION
